@@ -4,10 +4,14 @@ import GraafVerif.Model.Bfs
 /-!
 Driver handlers for the BFS half of property C05 (ops of `harness/src/ops/c05.rs`):
 
-  bfs_pred_iter          <desc> <sources>        =>  panic | [[pred v] …]      (pred = none | id)
-  bfs_pred_predecessors  <desc> <sources>        =>  panic | [pred …]
-  bfs_pred_shortest_path <desc> <sources> <tgt>  =>  panic | none | [v …]
-  bfs_pred_cycles        <desc> <sources>        =>  panic | [[v …] …]
+  bfs_pred_iter          <desc> <sources> [shape]        =>  panic | [[pred v] …]      (pred = none | id)
+  bfs_pred_predecessors  <desc> <sources> [shape]        =>  panic | [pred …]
+  bfs_pred_shortest_path <desc> <sources> <tgt> [shape]  =>  panic | none | [v …]
+  bfs_pred_cycles        <desc> <sources> [shape]        =>  panic | [[v …] …]
+  bfs_pred_iter_repoll   <desc> <sources> <k> <extra> [shape]
+                                   =>  panic | [first ≤k] [rest] [rest of a clone] [extra polls after None]
+
+`[shape]` = kind of source iterator, see `H04.lean` (the model is the same for every shape).
 
 `tgt` ∈ `[eq t] [in [..]] never always`.  Oracles judge the implementation's output with the
 naive `hopDistB`; the model is only used for the correspondence.
@@ -49,10 +53,30 @@ def firstSome {α : Type} (f : α → Option String) : List α → Option String
 
 def ofOptPair (p : Nat × Option Nat) : V := .l [V.ofOptNat p.2, V.ofNat p.1]
 
+/-- The C05 conditions on the items of the `BfsPred` iterator (Rust order `(pred, v)`). -/
+def checkPredItems (c : Ctx) (ps : List (Option Nat × Nat)) : Option String :=
+  match checkOrder c (ps.map (·.2)) with
+  | some e => some e
+  | none => firstSome (fun (p : Option Nat × Nat) => predEntryOk c p.2 p.1) ps
+
+def hPredRepoll : Handler := fun _ args obs =>
+  match args with
+  | desc :: srcs :: k :: extra :: shape => do
+    let c ← mkCtx desc srcs shape
+    let k ← V.nat? k
+    let extra ← V.nat? extra
+    let model := repollModel ofOptPair (bfsPred c.g c.S) k extra
+    let pf : Option String :=
+      match repollAll (V.pair? (V.opt? V.nat?) V.nat?) obs with
+      | some (ps, _) => checkPredItems c ps
+      | none => some "the call panicked / malformed output"
+    pure (finish c obs model pf ["repoll"])
+  | _ => none
+
 def hPredIter : Handler := fun _ args obs =>
   match args with
-  | [desc, srcs] => do
-    let c ← mkCtx desc srcs
+  | desc :: srcs :: shape => do
+    let c ← mkCtx desc srcs shape
     let model := resV (fun xs => V.l (xs.map ofOptPair)) (bfsPred c.g c.S)
     let pf : Option String :=
       match obs with
@@ -68,8 +92,8 @@ def hPredIter : Handler := fun _ args obs =>
 
 def hPredecessors : Handler := fun _ args obs =>
   match args with
-  | [desc, srcs] => do
-    let c ← mkCtx desc srcs
+  | desc :: srcs :: shape => do
+    let c ← mkCtx desc srcs shape
     let model := resV (fun pr => V.l (pr.map V.ofOptNat)) (predecessors c.g c.S)
     let pf : Option String :=
       match obs with
@@ -85,8 +109,8 @@ def hPredecessors : Handler := fun _ args obs =>
 
 def hShortestPath : Handler := fun _ args obs =>
   match args with
-  | [desc, srcs, tgt] => do
-    let c ← mkCtx desc srcs
+  | desc :: srcs :: tgt :: shape => do
+    let c ← mkCtx desc srcs shape
     let isT ← parseTgt tgt
     let model := resV (fun (o : Option (List Nat)) => match o with
       | none => V.a "none" | some p => V.ofNats p) (shortestPath c.g c.S isT)
@@ -128,8 +152,8 @@ def elemCycleB (c : Ctx) (p : List Nat) : Bool :=
 
 def hCycles : Handler := fun _ args obs =>
   match args with
-  | [desc, srcs] => do
-    let c ← mkCtx desc srcs
+  | desc :: srcs :: shape => do
+    let c ← mkCtx desc srcs shape
     let model := resV (fun cs => V.l (cs.map V.ofNats)) (cycles c.g c.S)
     let parsed := match obs with
       | [v] => V.listOf? (V.listOf? V.nat?) v
@@ -152,6 +176,7 @@ def hCycles : Handler := fun _ args obs =>
 
 def handlers : List (String × Handler) :=
   [("bfs_pred_iter", hPredIter), ("bfs_pred_predecessors", hPredecessors),
-   ("bfs_pred_shortest_path", hShortestPath), ("bfs_pred_cycles", hCycles)]
+   ("bfs_pred_shortest_path", hShortestPath), ("bfs_pred_cycles", hCycles),
+   ("bfs_pred_iter_repoll", hPredRepoll)]
 
 end GraafVerif.Driver.H05
